@@ -424,6 +424,13 @@ def replay_scheduler(ctx, tr):
     meta = tr["meta"]
     kind = meta["scheduler"]
     lines, exp, info = ["reset"], [None], [None]
+    primed = (tr.get("job") or {}).get("prime_counters")
+    if primed is not None and kind == "HeapScheduler":
+        # the traced run started with the lazy-deletion counters primed just below 2^32 (runtrace: `prime_counters`): so does the model;
+        # the purge at the wrap-around is then replayed in the model of heap.c too (tie-breaking by heap layout included)
+        for h in range(len(meta["handlers"])):
+            lines.append(f"setmv {h + 1} {int(primed)}")
+            exp.append(None); info.append(None)
     for i, leg in enumerate(tr["legs"]):
         for h, t in leg["times"].items():
             lines.append(f"push {f2b(t[0])} {f2b(t[1])} {h + 1}")
